@@ -24,7 +24,8 @@ ok = bool(first.get("patch_applies") and first.get("suite_with_change", {}).get(
 dest = VERIF / "benign" / bid
 if ok:
     dest.mkdir(parents=True, exist_ok=True)
-    shutil.copy(src / "patch.diff", dest / "patch.diff")
+    if (src / "patch.diff").resolve() != (dest / "patch.diff").resolve():
+        shutil.copy(src / "patch.diff", dest / "patch.diff")
     meta["confirmed_by_coordinator"] = {
         "repo_head": subprocess.run(["git", "-C", "/repo", "rev-parse", "--short", "HEAD"], capture_output=True, text=True).stdout.strip(),
         "patch_applies": True, "suite_with_change": first["suite_with_change"]["tail"],
